@@ -129,11 +129,46 @@ func runE(raw json.RawMessage) *core.Violation {
 			ts.EventBroadcast("", pk)
 		}
 	}
+	// a chat producer's events are dispatched by its operator's handler: a one-shot chat of
+	// the same operator, echoed back, proves they all have been
+	bufs := map[*mclient][]string{}
+	pull := func(b *mclient, until string) *core.Violation {
+		for {
+			fr, ok, _ := b.c.Next(wsx.Watchdog)
+			if !ok {
+				return core.V("live|not-delivered|bystander", "operator %s: %q did not arrive; got %d frames", b.user, until, len(bufs[b]))
+			}
+			pk, err := wsx.Decode(fr)
+			if err != nil {
+				return core.V("frame|not-one-package", "%v", err)
+			}
+			p := wsx.Proj(pk)
+			if p == until {
+				return nil
+			}
+			bufs[b] = append(bufs[b], p)
+		}
+	}
+	flush := func(tag string) *core.Violation {
+		for i, q := range prods {
+			if q.Kind == "chat" {
+				fl := fmt.Sprintf("flush-%s-%d", tag, i)
+				q.sender.c.SendJSON(wsx.BarrierPkg(q.sender.user, fl))
+				if v := pull(q.sender, "!chat/"+q.sender.user+"/"+fl); v != nil {
+					return v
+				}
+			}
+		}
+		return nil
+	}
 	// events before the newcomer starts (sequential: they are simply part of the history)
 	for _, q := range prods {
 		for j := 0; j < c.Before; j++ {
 			emit(q, j, nil)
 		}
+	}
+	if v := flush("before"); v != nil {
+		return v
 	}
 
 	// ---- the newcomer, falling behind in the middle of its replay
@@ -199,34 +234,8 @@ func runE(raw json.RawMessage) *core.Violation {
 		dirty = true
 		return core.V("hang|producers-while-newcomer-replays|"+core.HavocFrame(dump()), "the producers did not finish within %v after the newcomer's connection accepted data again", 2*wsx.Watchdog)
 	}
-	// a chat producer's events are dispatched by its operator's handler: a one-shot chat of
-	// the same operator, echoed back, proves they all have been
-	bufs := map[*mclient][]string{}
-	pull := func(b *mclient, until string) *core.Violation {
-		for {
-			fr, ok, _ := b.c.Next(wsx.Watchdog)
-			if !ok {
-				return core.V("live|not-delivered|bystander", "operator %s: %q did not arrive; got %d frames", b.user, until, len(bufs[b]))
-			}
-			pk, err := wsx.Decode(fr)
-			if err != nil {
-				return core.V("frame|not-one-package", "%v", err)
-			}
-			p := wsx.Proj(pk)
-			if p == until {
-				return nil
-			}
-			bufs[b] = append(bufs[b], p)
-		}
-	}
-	for i, q := range prods {
-		if q.Kind == "chat" {
-			fl := fmt.Sprintf("flush-%d", i)
-			q.sender.c.SendJSON(wsx.BarrierPkg(q.sender.user, fl))
-			if v := pull(q.sender, "!chat/"+q.sender.user+"/"+fl); v != nil {
-				return v
-			}
-		}
+	if v := flush("after"); v != nil {
+		return v
 	}
 	if nc.Peer.WriteFailed() {
 		// the pause outlasted the teamserver's write deadline (machine overloaded): no verdict
